@@ -6,6 +6,7 @@
 #include <stddef.h>
 #include <stdint.h>
 struct rans_sym;
-struct vec_u32 { uint32_t *data; size_t size; size_t cap; };
+/* struct vec_u32 (lut_table_) is emitted into the generated ans_types.h: its element type is copied from the source on every run */
+struct vec_u32;
 struct vec_sym { struct rans_sym *data; size_t size; size_t cap; };
 #endif
